@@ -39,6 +39,22 @@ static int do3(f3_t f, int argc, tok_t *a, out_t *o) {
   }
   mpz_clear(w); mpz_clear(u); mpz_clear(v); return 0;
 }
+/* the same for functions that may raise DIVIDE_BY_ZERO */
+static int do3g(f3_t f, int argc, tok_t *a, out_t *o) {
+  NEED(argc == 7); long m = mode_of(&a[0]); NEED(m >= 0 && m <= 4);
+  mpz_t w, u, v; int e = 0;
+  NEED(mk(w, &a[1], &a[2]) == 0);
+  if (mk(u, &a[3], &a[4])) { mpz_clear(w); return -1; }
+  if (mk(v, &a[5], &a[6])) { mpz_clear(w); mpz_clear(u); return -1; }
+  switch (m) {
+    case 0: e = GUARD(f(w, u, v)); if (e) out_err(o, "div0"); else outw(o, w); break;
+    case 1: e = GUARD(f(u, u, v)); if (e) out_err(o, "div0"); else outw(o, u); break;
+    case 2: e = GUARD(f(v, u, v)); if (e) out_err(o, "div0"); else outw(o, v); break;
+    case 3: e = GUARD(f(w, u, u)); if (e) out_err(o, "div0"); else outw(o, w); break;
+    case 4: e = GUARD(f(u, u, u)); if (e) out_err(o, "div0"); else outw(o, u); break;
+  }
+  mpz_clear(w); mpz_clear(u); mpz_clear(v); return 0;
+}
 /* f (w, u, ui): mode wa wv ua uv k */
 typedef void (*fui_t)(mpz_ptr, mpz_srcptr, mpir_ui);
 static int doui(fui_t f, int argc, tok_t *a, out_t *o) {
@@ -55,9 +71,11 @@ static int op_submul_ui(int c, tok_t *a, out_t *o) { return doui(mpz_submul_ui, 
 static int op_addmul(int c, tok_t *a, out_t *o) { return do3(mpz_addmul, c, a, o); }
 static int op_submul(int c, tok_t *a, out_t *o) { return do3(mpz_submul, c, a, o); }
 static int op_mul(int c, tok_t *a, out_t *o) { return do3(mpz_mul, c, a, o); }
+static int op_tdiv_q(int c, tok_t *a, out_t *o) { return do3g(mpz_tdiv_q, c, a, o); }
+static int op_tdiv_r(int c, tok_t *a, out_t *o) { return do3g(mpz_tdiv_r, c, a, o); }
 
 const opdef_t ops_allocsafe4[] = {
   {"as4_addmul_ui", op_addmul_ui}, {"as4_submul_ui", op_submul_ui},
-  {"as4_addmul", op_addmul}, {"as4_submul", op_submul}, {"as4_mul", op_mul},
+  {"as4_addmul", op_addmul}, {"as4_submul", op_submul}, {"as4_mul", op_mul}, {"as4_tdiv_q", op_tdiv_q}, {"as4_tdiv_r", op_tdiv_r},
   {0, 0}
 };
